@@ -1,5 +1,5 @@
 /* C06 D3 / C07: the real Cast_Helper_Inner<T>::cast for one parameter form T over int, on a symbolic Boxed_Value::Data
-   (static type and bare type each one of {int, double, another class}, const / reference / pointer / undefined flags,
+   (static type one of {int, double, another class, int*} with the bare type that Get_Type_Info derives from it, const / reference / pointer / undefined flags,
    stored pointers) that satisfies the representation invariant of Data (m_data_ptr is null exactly for const objects).
    Shape: FORM.  Asserted: the cast returns normally only for an object whose type is int in the way the form requires, a
    mutable form (T&, T*) never accepts a const object, and the C++ side receives exactly the stored object. */
@@ -24,14 +24,15 @@ char* CAST(char* ob, char* conv);
 int main(void) {
   static struct bv_data d; static int32_t stored; stored = nondet_i32();
   char* tis[4] = { (char*)&g__ZTIi, (char*)&ti_double, (char*)&ti_other, (char*)&ti_intptr };
-  unsigned a = nondet_u32() & 3, b = nondet_u32() & 3; __CPROVER_assume(b != 3);
+  unsigned a = nondet_u32() & 3; unsigned b = a == 3 ? 0 : a;      /* Type_Info invariant (Get_Type_Info): the bare type is the type with pointer/const/reference stripped - int* has bare type int */
   uint32_t flags = nondet_u32() & (TIF_const | TIF_reference | TIF_pointer | TIF_undef | TIF_arithmetic);
   D_TI(&d) = tis[a]; D_BARE_TI(&d) = tis[b]; D_FLAGS(&d) = flags;
   int isnull = nondet_u8() & 1;
   D_CPTR(&d) = isnull ? (void*)0 : (void*)&stored; D_PTR(&d) = (flags & TIF_const) ? (void*)0 : (void*)D_CPTR(&d);     /* invariant established by Data's constructor (C07 D0) */
   struct BV ob = { (char*)&d, 0 };
   int is_const = (flags & TIF_const) != 0, undef = (flags & TIF_undef) != 0;
-  int bare_is_int = !undef && b == 0, full_is_int = !undef && a == 0;
+  /* "only as its actual type": a box whose object is an int* VARIABLE (full type int*, bare type int) is not an int */
+  int bare_is_int = !undef && a == 0, full_is_int = !undef && a == 0;
 #if FORM == F_VALUE
   uint32_t r = CAST((char*)&ob, 0); int ok = bare_is_int; int need_nonnull = 1; char* rp = 0;
 #else
